@@ -164,7 +164,23 @@ func (u unit) String() string {
 
 type pu struct {
 	junk bool
+	// cert != 0 (junk is set as well): instead of junk below the layer, the peer answers the
+	// ClientHello with a certificate the client must not accept: 1 — issued by the CA the client
+	// trusts, but for another name; 2 — for the right names, issued by a CA it does not know.
+	// Spelled C1 / C2 on the line; to the model it is what junk is: bytes that do not make a
+	// handshake the client accepts.
+	cert int
 	u    unit
+}
+
+var certKinds = []string{"", "valid certificate for another name", "certificate of an unknown CA"}
+
+// badCert: the scenario's TLS phase begins with a certificate that must be refused
+func (sc *scenario) badCert() int {
+	if len(sc.prot) > 0 {
+		return sc.prot[0].cert
+	}
+	return 0
 }
 
 type other struct {
@@ -246,7 +262,9 @@ func (sc scenario) clearField() string {
 func (sc scenario) protField() string {
 	var us []string
 	for _, p := range sc.prot {
-		if p.junk {
+		if p.cert != 0 {
+			us = append(us, "C"+strconv.Itoa(p.cert))
+		} else if p.junk {
 			us = append(us, "J")
 		} else {
 			us = append(us, p.u.String())
@@ -367,6 +385,10 @@ func parseScenario(f []string) (sc scenario, err error) {
 		for _, s := range strings.Split(f[6], ",") {
 			if s == "J" {
 				sc.prot = append(sc.prot, pu{junk: true})
+				continue
+			}
+			if s == "C1" || s == "C2" {
+				sc.prot = append(sc.prot, pu{junk: true, cert: int(s[1] - '0')})
 				continue
 			}
 			u, err := parseUnit(s)
@@ -914,11 +936,11 @@ func (c *ctx) exec1(sc scenario, base *xmpp.StreamFeature, shared *sharedNeg) (r
 	if sc.wsConn() {
 		w = newWSWire(clear)
 	}
-	peer := &tlsPeer{w: w, cfg: c.pki.server}
+	peer := &tlsPeer{w: w, cfg: c.pki.server, bad: []*tls.Config{nil, c.pki.wrongName, c.pki.unknownCA}}
 	var items []pitem
 	for _, p := range sc.prot {
 		if p.junk {
-			items = append(items, pitem{junk: true, b: []byte("<stream:features/> this is not a TLS record")})
+			items = append(items, pitem{junk: true, cert: p.cert, b: []byte("<stream:features/> this is not a TLS record")})
 		} else {
 			items = append(items, pitem{b: spell(p.u)})
 		}
